@@ -35,7 +35,16 @@ func (obj Symbol) Readably(b []byte, p *Printer) []byte {
 	}
 	if obj.needPipes() {
 		b = append(b, '|')
-		b = append(b, p.caseName(string(obj))...)
+		for _, c := range []byte(p.caseName(string(obj))) {
+			switch {
+			case c == '|' || c == '\\':
+				b = append(b, '\\', c)
+			case c < 0x20 && c != '\t' && c != '\n' && c != '\r':
+				b = append(b, '\\', 'u', '0', '0', hexChars[c>>4], hexChars[c&0x0f])
+			default:
+				b = append(b, c)
+			}
+		}
 		return append(b, '|')
 	}
 	return append(b, p.caseName(string(obj))...)
